@@ -753,6 +753,9 @@ def _shard(shard, nshards, tier, seed):
         t0s = [0, 31, 33] + list(range(fd - 120, fd + 1, 4)) + [2 * fd - 40]
         if quick:
             t0s = [0, 33] + list(range(fd - 96, fd + 1, 12))
+        # the same frame positions with the clock beyond 2^32 (about 20 minutes of Spectrum time)
+        big = (2 ** 32 // fd + 1) * fd
+        t0s += [big + x for x in ((20, fd - 48, fd - 12) if quick else (0, 20, 33, fd - 96, fd - 48, fd - 24, fd - 12, fd - 4))]
         seqs = [()]
         for n in range(1, maxlen + 1):
             seqs.extend(itertools.product(range(len(letters)), repeat=n))
